@@ -752,7 +752,8 @@ theorem coveredWaiting_sorted (w : List (Nat × List (Nat × Nat))) (la : Nat) :
     (w.filter (fun p => decide (p.1 ≤ la)))
   simpa only [decide_eq_true_eq, coveredWaiting] using this
 
-theorem ranIdxs_callbackOpen (l : List (Nat × Nat)) : ranIdxs (l.map (fun s => Ev.callbackOpen s.2)) = [] := by
+theorem ranIdxs_callbackOpen (l : List (Nat × Nat)) (a b : Nat) :
+    ranIdxs (l.map (fun s => Ev.callbackOpen s.2 a b)) = [] := by
   induction l with
   | nil => rfl
   | cons x xs ih => simpa [ranIdxs] using ih
